@@ -24,6 +24,8 @@ CONSTANTS
   Weak_RejectSendersIgnored = FALSE
   Weak_DupOverwrites = TRUE
   Weak_RejectNotBlacklisted = FALSE
+  Weak_FormatNotBlacklisted = FALSE
+  Weak_NoSyncerLevelCheck = FALSE
 INIT Init
 NEXT Next
 INVARIANTS TrustedOnly VerifiedBeforeDone InOrder AsRecorded RefetchHonoured NeverReused
